@@ -70,16 +70,33 @@ def main():
             "model_request": "run\t" + progen.sx_prog(small), "implementation": sa[:2000], "model": sm[:2000],
             "explanation": "lli(IR) prints/returns something else than the documented semantics (Lean interpreter) for this "
                            "well-typed, terminating, UB-free program"})
+    # structures and words are outside the Lean interpreter: programs around structure / word literals (every member order,
+    # constant and variable members, nested, as constants) against the arithmetic of their members (Python oracle, reported
+    # as such: an implementation-vs-oracle failure, not a model disagreement)
+    import agggen
+    aggs = [agggen.struct_program(rng.fork("agg%d" % i)) for i in range(2000 if rep.tier == "thorough" else 150)]
+    ah = runlib.impl_run([a[0] for a in aggs])
+    for (src, status, how), ans in zip(aggs, ah):
+        hh, hd = kv(ans)
+        dist["aggregate:" + how] += 1
+        if hh == "ok" and hd.get("status") == str(status):
+            agreeing += 1
+        else:
+            rep.violation("oracle:aggregate:%x" % hash_str(src), {
+                "why": "a program reading back the members of a structure/word literal: expected exit status %d (oracle: weighted sum of "
+                       "the member values), got %s" % (status, ans[:200]),
+                "source": src, "harness_request": "alpha\trun\tmain.pn\t" + esc(src), "oracle": "checks/agggen.py"})
     report_broken_proof(rep)
     rep.coverage.update({
-        "evaluations": len(jobs),
+        "evaluations": len(jobs) + len(aggs),
         "programs": len(keep),
         "distinct_nontrivial": len(set(progen.sx_prog(progs[i]) for i in keep)),
         "rule": "type-directed random programs (11 integer types + bool, constants, helper functions with value / pointer / "
                 "view / slice-pointer parameters, arrays, nested blocks with forward gotos, counted loops, if/else-if, casts, "
                 "all operators, prints of every variable, exit status) rendered with random layout (indentation, blank lines, "
                 "comments, redundant parentheses, literal spellings); every 5th program under three layouts; programs on which "
-                "the interpreter reports UB or runs out of fuel are discarded (counted in distribution); non-trivial = all kept",
+                "the interpreter reports UB or runs out of fuel are discarded (counted in distribution); non-trivial = all kept; "
+                "plus structure/word-literal programs against a Python oracle (weighted sum of the member values)",
         "traces_validated_against_impl": agreeing,
         "distribution": dict(dist), "feature_counts": dict(feats),
         "samples": [progen.sx_prog(progs[keep[0]])[:1500]] if keep else [],
